@@ -67,6 +67,7 @@ func EmitGlue(dir string, s Src) error {
 import (
 	"io"
 	"reflect"
+	"sync"
 
 	drv "%[4]s/drv"
 )
@@ -83,6 +84,36 @@ func (a vfR) Rows() int64          { return a.r.Rows() }
 func (a vfR) Next() bool           { return a.r.Next() }
 func (a vfR) Scan(x interface{})   { a.r.Scan(x.(*%[2]s)) }
 func (a vfR) Error() error         { return a.r.Error() }
+
+var (
+	optMu   sync.Mutex
+	optSets = map[[2]int][]func(*ParquetWriter) error{}
+)
+
+// sharedOpts returns the one option slice of this process for (page, codec);
+// it has spare capacity, as a slice grown by append usually has.
+func sharedOpts(page, codec int) []func(*ParquetWriter) error {
+	optMu.Lock()
+	defer optMu.Unlock()
+	k := [2]int{page, codec}
+	if o, ok := optSets[k]; ok {
+		return o
+	}
+	o := make([]func(*ParquetWriter) error, 0, 8)
+	if page > 0 {
+		o = append(o, MaxPageSize(page))
+	}
+	switch codec {
+	case 0:
+		o = append(o, Uncompressed)
+	case 1:
+		o = append(o, Snappy)
+	case 2:
+		o = append(o, Gzip)
+	}
+	optSets[k] = o
+	return o
+}
 
 func init() {
 	drv.Register(drv.Shape{
@@ -104,6 +135,13 @@ func init() {
 				opts = append(opts, Gzip)
 			}
 			pw, err := NewParquetWriter(w, opts...)
+			if err != nil {
+				return nil, err
+			}
+			return vfW{pw}, nil
+		},
+		NewWriterShared: func(w io.Writer, page int, codec int) (drv.W, error) {
+			pw, err := NewParquetWriter(w, sharedOpts(page, codec)...)
 			if err != nil {
 				return nil, err
 			}
